@@ -288,14 +288,17 @@ def gen_system(rng):
     targets = [rng.choice(cands) for _ in range(nt)]
     if rng.random() < 0.03: targets.append("junk")
     if rng.random() < 0.03: targets.append(rng.choice(list(data)))
+    # the functions are handed over as a list of callables or (documented alternative) as a dict column name -> callable,
+    # in which the callables' own `__name__`s are unrelated to the column names
+    as_dict = rng.random() < 0.3 and len({r["name"] for r in rules}) == len(rules)
     return dict(data=data, rules=rules, params=params, gspecs=gspecs, pspecs=pspecs, targets=targets,
-                rounding=rng.random() < 0.75)
+                rounding=rng.random() < 0.75, as_dict=as_dict)
 
 # ------------------------------------------------------------------ run real
-def make_func(r):
+def make_func(r, pyname=None):
     sig = ", ".join(f"{a}" for a in r["args"])
     ann = f" -> {r['ret']}" if r["ret"] else ""
-    pyname = r["name"]
+    pyname = pyname or r["name"]
     src = f"def {pyname}({sig}){ann}:\n" + py_block(r["body"], 1)
     ns = {}
     exec(src, ns)
@@ -311,6 +314,8 @@ def run_real(s):
     for r in s["rules"]:
         f, _ = make_func(r)
         funcs.append(f)
+    if s.get("as_dict"):
+        funcs = {r["name"]: make_func(r, pyname=f"impl_{i}")[0] for i, r in enumerate(s["rules"])}
     out = []
     try:
         with np.errstate(all="ignore"):
